@@ -1,6 +1,6 @@
 CONSTANTS
   Defects = {"lm_arg_ignored"}
-  Family = "cache"
+  Family = "cache_small"
   Deep = FALSE
 INIT Init
 NEXT Next
